@@ -373,10 +373,12 @@ Definition comm_name_lt (a b : amount) : res bool :=
   | _, _ => Err EBadOp
   end.
 
-(* balance_t::to_amount *)
+(* value_t::to_amount on a BALANCE (in_place_cast(AMOUNT), value.cc:1319-1340): the single
+   entry, the amount 0 for an empty balance, an error for several commodities *)
 Definition bal_to_amount (b : balance) : res amount :=
   match b with
   | [x] => Ok x
+  | [] => Ok (amt_of_Z 0)
   | _ => Err EBadOp
   end.
 
